@@ -539,3 +539,276 @@ def c08(tier, replay=None):
                        "buffer_model": {"streams_up_to": 6 if tier == "quick" else 8, "states": st["distinct"]},
                        "explanation": "CifBuffer.tla (per-fill folding with carry) is checked for every stream and cut set up to the bound; on the real parser each base document of CifDoc.tla is rendered with LF / CR LF / CR / mixed terminators and with padding that places each interesting byte (terminators, delimiters, multi-byte characters, every byte of them) on the 4096-byte read boundary; content must equal the denotation and the error list the unpadded LF one shifted by the pad lines"},
                       ["production buffer sizes are used (4096-byte reads, 131200-unit scan buffer)"])
+
+
+# ------------------------------------------------------------------------------------------------ C03
+def defined_codes():
+    src = open(os.path.join(REPO, "src", "cif.h"), encoding="utf-8", errors="replace").read()
+    a, b = src.find("@defgroup return_codes"), src.find("CIF_TRAVERSE_CONTINUE")
+    grp = re.sub(r"/\*.*?\*/", "", src[a:b], flags=re.S)
+    return sorted({int(m.group(1)) for m in re.finditer(r"^[ \t]*#[ \t]*define[ \t]+CIF_[A-Z0-9_]+[ \t]+(\d+)[ \t]*$", grp, flags=re.M)})
+
+
+def mutate_bytes(b, rnd):
+    """a few byte-level mutations of a document"""
+    out = []
+    n = len(b)
+    if n == 0:
+        return out
+    out.append(("trunc", b[:rnd.randrange(n)]))
+    i = rnd.randrange(n)
+    out.append(("flip", b[:i] + bytes([b[i] ^ (1 << rnd.randrange(8))]) + b[i + 1:]))
+    ins = rnd.choice([b"\x00", b"\x01", b"\x0b", b"\x0c", b"\x7f", b"\x80", b"\xc0\xaf", b"\xe2\x82", b"\xf0\x9f\x98", b"\xed\xa0\x80", b"\xef\xbb\xbf", b"\xef\xbf\xbf", b"\xef\xb7\x90",
+                      b"\xf4\x90\x80\x80", b"\xff", b"'", b'"', b";", b"\n;", b"[", b"{", b"]", b"}", b":", b"'''", b'"""', b"\\\n", b"data_", b"save_", b"loop_", b"global_", b"stop_", b"_", b"$x", b"\r", b"#\\#CIF_2.0"])
+    i = rnd.randrange(n + 1)
+    out.append(("insert", b[:i] + ins + b[i:]))
+    i, j = sorted((rnd.randrange(n), rnd.randrange(n)))
+    out.append(("delete", b[:i] + b[j:]))
+    out.append(("dup", b[:j] + b[i:j] + b[j:]))
+    return out
+
+
+def encodings_of(text):
+    res = []
+    for enc, bom in (("utf-16-le", b"\xff\xfe"), ("utf-16-be", b"\xfe\xff"), ("utf-32-le", b"\xff\xfe\x00\x00"), ("utf-32-be", b"\x00\x00\xfe\xff")):
+        try:
+            e = text.encode(enc, "surrogatepass")
+        except Exception:
+            continue
+        res.append((enc + "+bom", bom + e))
+        res.append((enc, e))
+    res.append(("utf8+bom", b"\xef\xbb\xbf" + text.encode("utf-8", "surrogatepass")))
+    res.append(("latin1", text.encode("latin-1", "replace")))
+    return res
+
+
+OPTION_SETS = [None,
+               {"prefer_cif2": -1}, {"prefer_cif2": 1}, {"prefer_cif2": 20}, {"max_frame_depth": 0}, {"max_frame_depth": -1},
+               {"fold": -1, "prefix": -1}, {"fold": 1, "prefix": 1, "prefer_cif2": -1}, {"fold": 1, "prefix": -1}, {"extra_ws": "\x0b", "extra_eol": "\x0c"},
+               {"enc": "ISO-8859-1"}, {"enc": "ISO-8859-1", "force": 1}, {"enc": "UTF-16LE", "force": 1}, {"force": 1}, {"enc": "UTF-8", "force": 1, "prefer_cif2": 1},
+               {"enc": "no-such-encoding", "force": 1}, {"enc": "no-such-encoding"}]
+
+
+def options_valid(o):
+    return not (o and o.get("enc") == "no-such-encoding")
+
+
+def contract_run(binary, inputs, tier):
+    """inputs: list of (label, bytes, opts, target) ; returns (events, per-input info)"""
+    # phase 1: all-accepting run of every input (storing mode / given target)
+    def cmds_for(b, opts, target, errors, escript=None, handler=False):
+        c = {"op": "parse", "hex": b.hex(), "errors": errors}
+        if target != "none":
+            c["cif"] = "t"
+        if opts:
+            c["opts"] = opts
+        if escript is not None:
+            c["escript"] = escript
+        if handler:
+            c["handler"] = 1; c["query"] = 0
+        pre = []
+        if target == "populated":
+            pre = [{"op": "cif_create", "cif": "t"}, {"op": "create_block", "cif": "t", "code": "b", "h": "hb"},
+                   {"op": "set_value", "cont": "hb", "name": "_n1", "v": {"k": "char", "t": "pre", "q": 1}}, {"op": "container_free", "cont": "hb"}]
+        post = []
+        if target != "none":
+            post = [{"op": "walk", "cif": "t", "script": [], "query": 0}, {"op": "write", "cif": "t", "bytes": 0},
+                    {"op": "create_block", "cif": "t", "code": "zz_post", "h": "hp"}, {"op": "set_value", "cont": "hp", "name": "_p", "v": {"k": "na"}},
+                    {"op": "container_destroy", "cont": "hp"}, {"op": "cif_destroy", "cif": "t"}]
+        return pre + [c] + post + [{"op": "reset"}], len(pre)
+
+    def run_many(specs):
+        """specs: list of (key, cmds, npre) -> {key: outs or None}"""
+        def run_chunk(ch):
+            cmds = []
+            spans = []
+            for key, cs, npre in ch:
+                spans.append((key, len(cmds), len(cmds) + len(cs), npre))
+                cmds += cs
+            t0 = time.time()
+            rr = run_cifrun(binary, cmds, timeout=120)
+            if time.time() - t0 > 20:
+                log("  slow chunk %.0fs rc=%s outs=%d/%d first=%s" % (time.time() - t0, rr.rc, len(rr.outs), len(cmds), ch[0][0]))
+            res = {}
+            for key, a, b, npre in spans:
+                res[key] = (rr.outs[a:b], npre) if b <= len(rr.outs) else (None, rr.stderr[:5000] if a <= len(rr.outs) < b else "")
+            return res
+        out = {}
+        chunks = [specs[i:i + 100] for i in range(0, len(specs), 100)]
+        for r in pmap(run_chunk, chunks):
+            out.update(r)
+        # executions lost together with a crashed neighbour are re-run alone
+        lost = [s for s in specs if out[s[0]][0] is None and out[s[0]][1] == ""]
+        for r in pmap(run_chunk, [[s] for s in lost]):
+            out.update(r)
+        return out
+
+    specs = []
+    for i, (label, b, opts, target, handler) in enumerate(inputs):
+        cs, npre = cmds_for(b, opts, target, "accept", handler=handler)
+        specs.append(((i, "accept"), cs, npre))
+    first = run_many(specs)
+    specs2 = []
+    for i, (label, b, opts, target, handler) in enumerate(inputs):
+        outs, npre = first[(i, "accept")]
+        if outs is None:
+            continue
+        errs = [e for e in outs[npre].get("log", []) if e.get("cb") == "error"]
+        n = len(errs)
+        for k in sorted(set([1, 2, 3, n - 1, n]) if tier == "quick" else set(range(1, min(n, 12) + 1)) | {n}):
+            if 1 <= k <= n:
+                cs, np2 = cmds_for(b, opts, target, "script", escript=[0] * (k - 1) + [1000 + k], handler=handler)
+                specs2.append(((i, "reject%d" % k), cs, np2))
+        cs, np2 = cmds_for(b, opts, target, "die", handler=handler)
+        specs2.append(((i, "die"), cs, np2))
+    second = run_many(specs2)
+    return first, second
+
+
+def events_of(outs, npre, mode, valid, first_code, target):
+    ev = [{"e": "start", "mode": mode, "valid": 1 if valid else 0}]
+    p = outs[npre]
+    for e in p.get("log", []):
+        if e.get("cb") == "error":
+            ev.append({"e": "err", "code": e["code"], "line": e["line"], "len": e["len"], "ans": e["r"]})
+    ev.append({"e": "ret", "rc": p.get("rc", -1), "first": first_code})
+    if target != "none" and len(outs) >= npre + 7:
+        w, wr, cb, sv, cd, dd = outs[npre + 1:npre + 7]
+        modify = 0 if (cb.get("rc") == 0 and sv.get("rc") == 0 and cd.get("rc") == 0) else (cb.get("rc") or sv.get("rc") or cd.get("rc") or 1)
+        if "err" in w or "err" in cb:
+            # no CIF came back (cif_parse failed before creating one): nothing to use afterwards
+            return ev
+        ev.append({"e": "post", "walk": w.get("rc", -1), "write": wr.get("rc", -1), "modify": modify, "destroy": dd.get("rc", -1)})
+    return ev
+
+
+def c03(tier, replay=None):
+    rep = Report("C03", tier, "exploration")
+    binary = build("asan")
+    rnd = random.Random(SEED)
+    codes = defined_codes()
+    # inputs: grammar-derived documents (well-formed and defective), their byte mutations and re-encodings
+    out, st1, wd = run_doc_tlc("c03-base", 2, ["word", "apos", "ml", "mlsemi", "u4", "bslend", "tq12", "semi", "empty"], ALLPRES, ["sp", "eol", "cmt", "none"], CTX2, ["eof", "eol"], 1)
+    if not st1["ok"]:
+        cleanup(wd); raise Infra("TLC failed (C03 bases): " + st1.get("error", "")[:800])
+    bases = [render(o["d"]["doc"], ("lf", "crlf", "cr")[i % 3]) for i, (tag, o) in enumerate(iter_tlc_json(out, ("DOC",)))]
+    cleanup(wd)
+    rnd.shuffle(bases)
+    nb = int(os.environ.get("C03_BASES", "0")) or (150 if tier == "quick" else 1500)
+    bases = bases[:nb]
+    # hand-written seeds for constructs the generator does not produce
+    seeds = ["", "﻿", "data_", "data_a loop_", "loop_ _a _a 1 2", "data_a\nloop_ _ 1", "data_a _x [", "data_a _x {'k':", "data_a _x {'k'", "data_a\n;", "data_a _x '''", "save_", "data_a save_f save_g",
+             "#\\#CIF_2.0\ndata_a\n_x \ud800", "data_a _x \udc00y", "#\\#CIF_1.1\ndata_a _x [a]", "data_a _x 'a'b", "data_a _x\n;\\\n\\\n;", "data_a _x\n;> \\\n;", "data_a\n_x\n;>\\\\\n>a\\\n>\n;\n",
+             "data_" + "c" * 2050, "data_a _" + "n" * 3000 + " 1", "data_a _x " + "v" * 70000, "data_a _x '" + "q" * 70000 + "'", "data_a\n_x\n;" + ("t" * 2000 + "\n") * 80 + ";\n", "data_a " + "_n 1 " * 3,
+             "data_a loop_ " + " ".join("_i%d" % i for i in range(300)) + " " + "1 " * 600, "data_a _x " + "[" * 3000, "data_a _x " + "{'k':" * 500, "\x00", "\xff", "data_a _x \x7f"]
+    inputs = []
+    for i, t in enumerate(bases):
+        b = t.encode("utf-8")
+        inputs.append(("base", b, OPTION_SETS[i % len(OPTION_SETS)], ("new", "none", "populated")[i % 3], i % 5 == 0))
+        for kind, mb in mutate_bytes(b, rnd):
+            inputs.append((kind, mb, OPTION_SETS[rnd.randrange(len(OPTION_SETS))] if rnd.random() < 0.4 else None, ("new", "none", "populated")[rnd.randrange(3)], False))
+        if i % 10 == 0:
+            for kind, eb in encodings_of(t):
+                inputs.append((kind, eb, rnd.choice([None, {"prefer_cif2": 1}, {"force": 1, "enc": "UTF-16LE"}]), "new", False))
+    for t in seeds:
+        b = t.encode("utf-8", "surrogatepass")
+        for o in (None, {"prefer_cif2": -1}, {"prefer_cif2": 20}, {"max_frame_depth": 0}):
+            inputs.append(("seed", b, o, "new", False))
+        inputs.append(("seed16", t.encode("utf-16-le", "surrogatepass"), {"force": 1, "enc": "UTF-16LE"}, "new", False))
+        inputs.append(("seed16bom", b"\xff\xfe" + t.encode("utf-16-le", "surrogatepass"), None, "none", False))
+    t0 = time.time()
+    first, second = contract_run(binary, inputs, tier)
+    log('[C03] executions done in %.1fs' % (time.time() - t0))
+    # build the trace
+    events = [{"e": "codes", "codes": codes}]
+    leaks = []
+    owners = []     # (event index, input index, mode)
+    lost = []
+    nexec = 0
+    for (i, modek), (outs, npre) in list(first.items()) + list(second.items()):
+        label, b, opts, target, handler = inputs[i]
+        if outs is None:
+            lost.append((i, modek, npre))
+            continue
+        fc = 0
+        fo = first.get((i, "accept"))
+        if fo and fo[0]:
+            errs = [e for e in fo[0][fo[1]].get("log", []) if e.get("cb") == "error"]
+            fc = errs[0]["code"] if errs else fo[0][fo[1]].get("rc", 0)
+        ev = events_of(outs, npre, "die" if modek == "die" else "cb", options_valid(opts), fc, target)
+        owners.append((len(events) + 1, i, modek))
+        events += ev
+        nexec += 1
+        for o in outs:
+            if "env_after" in o:
+                rep.violation("environment changed by %s" % o.get("op"), "%s -> %s" % (o.get("env_before"), o["env_after"]), {"hex": b.hex()[:4000], "opts": opts})
+            if o.get("op") == "reset" and o.get("leak"):
+                leaks.append((i, modek))
+    # attribute leaks to their allocation site: re-run the execution alone and read LeakSanitizer's report
+    seen_sites = collections.Counter()
+    for i, modek in leaks[:400]:
+        label, b, opts, target, handler = inputs[i]
+        site = "?"
+        if len(seen_sites) < 12 or True:
+            c = {"op": "parse", "hex": b.hex(), "errors": "die" if modek == "die" else ("accept" if modek == "accept" else "script")}
+            if modek.startswith("reject"):
+                k = int(modek[6:]); c["escript"] = [0] * (k - 1) + [1000 + k]
+            if target != "none":
+                c["cif"] = "t"
+            if opts:
+                c["opts"] = opts
+            rr = run_cifrun(binary, [c, {"op": "reset"}], timeout=120)
+            fr = re.findall(r"#\d+ 0x[0-9a-f]+ in (\w+) /repo/src/([\w./]+):(\d+)", rr.stderr)
+            site = " < ".join("%s@%s" % (f[0], f[1]) for f in fr[:3]) or "?"
+        seen_sites[site] += 1
+        rep.violation("leak: allocated in " + site, "LeakSanitizer: memory allocated in %s is still allocated after the parse (policy %s) and cif_destroy" % (site, modek),
+                      {"hex": b.hex()[:4000], "opts": opts, "policy": modek, "target": target})
+    for i, modek, stderr in lost:
+        label, b, opts, target, handler = inputs[i]
+        rep.violation("no return: %s" % sanitizer_signature(stderr or ""), "cif_parse (or the use of its CIF afterwards) did not return: input kind %s, options %s, policy %s" % (label, opts, modek),
+                      {"hex": b.hex()[:8000], "opts": opts, "target": target, "policy": modek, "stderr": (stderr or "")[:3000]})
+    # TLC validates the whole trace against ParseContract.tla
+    wd = scratch_dir("contract")
+    trace = os.path.join(wd, "trace.ndjson")
+    if os.environ.get("C03_KEEP"):
+        trace = os.environ["C03_KEEP"]
+    with open(trace, "w") as f:
+        for e in events:
+            f.write(json.dumps(e) + "\n")
+    cfg = "SPECIFICATION Spec\nINVARIANT NotAccepted\nCHECK_DEADLOCK FALSE\n"
+    t0 = time.time()
+    out, st, wd2 = run_tlc("ParseContract", cfg, "contract", workers=1, env={"TRACE": trace}, timeout=2400, heap="8g")
+    log('[C03] TLC validated %d events in %.1fs' % (len(events), time.time() - t0))
+    text = open(out, errors="replace").read()
+    cleanup(wd2)
+    tstates = st["distinct"]
+    if "Invariant NotAccepted is violated" not in text:
+        cleanup(wd)
+        raise Infra("TLC did not consume the whole trace: " + (st.get("error") or text[-1200:])[:1500])
+    rejected = 0
+    for at in sorted({int(m.group(1)) for m in re.finditer(r'<<"BREACH", (\d+)>>', text)}):
+        rejected += 1
+        own = [o for o in owners if o[0] <= at]
+        ei, i, modek = own[-1] if own else (1, 0, "?")
+        label, b, opts, target, handler = inputs[i]
+        bad = events[at - 1]
+        desc = {k: v for k, v in bad.items() if k in ("code", "rc", "first", "walk", "write", "modify", "destroy", "ans", "line")}
+        if bad.get("e") == "ret":
+            sigd = "ret rc=%s%s" % (bad.get("rc"), " die-first=%s" % bad.get("first") if modek == "die" else "")
+        elif bad.get("e") == "post":
+            sigd = "post " + " ".join("%s=%s" % (k, bad[k]) for k in ("walk", "write", "modify", "destroy") if bad.get(k))
+        else:
+            sigd = "%s %s" % (bad.get("e"), desc)
+        rep.violation("contract: " + sigd,
+                      "execution (input kind %s, options %s, policy %s, target %s) violates the parse contract at event %s" % (label, opts, modek, target, json.dumps(bad)),
+                      {"hex": b.hex()[:8000], "opts": opts, "policy": modek, "target": target, "events": [e for e in events[ei - 1:ei + 12]]})
+    cleanup(wd)
+    kinds = collections.Counter(x[0] for x in inputs)
+    rep.samples = [{"input_kind": inputs[i][0], "hex": inputs[i][1][:60].hex(), "options": inputs[i][2], "target": inputs[i][3]} for i in (0, len(inputs) // 2, len(inputs) - 1)]
+    log("[C03] inputs %d executions %d events %d lost %d rejected %d" % (len(inputs), nexec, len(events), len(lost), rejected))
+    return rep.finish({"evaluations": nexec, "distinct_nontrivial": len({(x[1], json.dumps(x[2]), x[3]) for x in inputs}),
+                       "rule": "inputs = CifDoc documents, 5 byte mutations each, UTF-16/32/BOM/Latin-1 re-encodings, hand-written seeds; crossed with 17 option sets, 3 targets, and callback policies accept-all / reject the k-th / default handler; distinct = distinct (bytes, options, target)",
+                       "inputs": len(inputs), "input_kinds": dict(kinds), "events_validated_by_tlc": len(events), "monitor_states": tstates, "executions_not_returning": len(lost),
+                       "samples": rep.samples},
+                      ["memory errors are made observable by ASan/UBSan (an execution that does not return is a rejected trace)",
+                       "not coverage-guided: depth comes from starting at grammar-derived documents"])
